@@ -6,7 +6,7 @@
    C07/Model.v that the correspondence ties execute at binary64. *)
 From Coq Require Import List Arith ZArith Bool Reals.
 From T4V Require Import Base.Scalar C07.Model C07.ProofsAlgebra C07.ProofsComb C07.ProofsMain
-  C07.ProofsGeom C07.ProofsExample.
+  C07.ProofsGeom C07.ProofsExample C07.ProofsDomain.
 Import ListNotations.
 Open Scope R_scope.
 
@@ -302,3 +302,55 @@ Example C07_example_base_vectors :
   (forall i, (i < 6)%nat -> sd ex_surfs i = planeSide RS ex_c (pl ex_surfs i) /\ sd ex_surfs i <> 0%Z) /\
   hexLatticeBaseVectors RS ex_surfs = Ok [(3, -1, 0); (3, 1, 0); (0, 0, 4)].
 Proof. split; [exact ex_carries|split; [exact ex_sense|exact example_base_vectors]]. Qed.
+
+(* ---------- develop_lattice: ranges against base vectors, element translation ---------- *)
+
+(* the test of the FILL ranges in develop_lattice, as written: when the number
+   of base vectors differs from the number of ranges it only compares it with
+   the number of non-trivial ranges (the loop over the "missing" bounds never
+   runs, its count is negative) *)
+Theorem C07_domain_check_spec : forall (nvec : nat) (bounds : list (Z * Z)),
+  (nvec <= List.length bounds)%nat ->
+  domain_check nvec bounds =
+  if Nat.eqb nvec (List.length bounds) || Nat.eqb nvec (bounds_dims bounds) then Ok tt else Err ELattice.
+Proof. exact domain_check_spec. Qed.
+Print Assumptions C07_domain_check_spec.
+
+(* guarded statement: ranges of a lattice whose leading ranges are all
+   non-trivial and whose ranges without base vector are lo = hi are accepted *)
+Theorem C07_domain_check_guarded : forall (nvec : nat) (bounds : list (Z * Z)),
+  (nvec <= List.length bounds)%nat ->
+  forallb nontrivial (firstn nvec bounds) = true ->
+  forallb (fun r => negb (nontrivial r)) (skipn nvec bounds) = true ->
+  domain_check nvec bounds = Ok tt.
+Proof. exact domain_check_guarded. Qed.
+Print Assumptions C07_domain_check_guarded.
+
+(* the full statement (every FILL whose range without base vector is lo = hi is
+   accepted) is false of the code: six planes, FILL=-1:1 0:0 0:0 — the finding
+   six_planes_trivial_range *)
+Theorem C07_six_planes_trivial_range_refuted :
+  exists bounds : list (Z * Z),
+    List.length bounds = 3%nat /\
+    forallb (fun r => negb (nontrivial r)) (skipn 2 bounds) = true /\
+    domain_check 2 bounds = Err ELattice.
+Proof. exact six_planes_trivial_range_refuted. Qed.
+Print Assumptions C07_six_planes_trivial_range_refuted.
+
+(* the converse defect of the same test: a non-trivial range in a direction
+   without base vector passes as soon as the count fits (six planes,
+   FILL=-1:1 0:0 -1:1); by C07_lattice_vector the elements (i, 0, k), k = -1, 0, 1
+   are then superposed *)
+Theorem C07_axial_range_without_vector_accepted :
+  domain_check 2 [(-1, 1); (0, 0); (-1, 1)]%Z = Ok tt.
+Proof. exact axial_range_without_vector_accepted. Qed.
+Print Assumptions C07_axial_range_without_vector_accepted.
+
+(* element (i, j, k) is translated by i a1 + j a2 + k a3; with the two base
+   vectors of a six-plane prism the third index does not move the element *)
+Theorem C07_lattice_vector : forall (a1 a2 a3 : rvec) (i j k : Z),
+  latticeVector RS [a1; a2; a3] [i; j; k] =
+  vadd (vadd (vscale (IZR i) a1) (vscale (IZR j) a2)) (vscale (IZR k) a3) /\
+  latticeVector RS [a1; a2] [i; j; k] = vadd (vscale (IZR i) a1) (vscale (IZR j) a2).
+Proof. intros. split; [apply lattice_vector_three|apply lattice_vector_two]. Qed.
+Print Assumptions C07_lattice_vector.
